@@ -1087,10 +1087,13 @@ class CircuitTemplate(AbstractBaseTemplate):
         hierarchies.
 
         """
-        edges = self.edges
+        # work on a new list (and new attribute dicts for the edges of sub-circuits): collecting edges must not
+        # change the edge definitions of this template or of its sub-circuits
+        edges = list(self.edges)
         for c_scope, c in self.circuits.items():
             edges_tmp = c.collect_edges()
             for svar, tvar, template, edge_dict in edges_tmp:
+                edge_dict = dict(edge_dict)
                 for key, val in edge_dict.copy().items():
                     if type(val) is str and val != 'source':
                         edge_dict[key] = f"{c_scope}/{val}"
